@@ -38,13 +38,13 @@ func TestVerifC14_x448(t *testing.T) {
 	all := verifc14.FieldAlphabet(7, wide, named, -2, 19, c.R.Pick(8, 32), "x448-public")
 	secrets := verifc14.DHSecrets(Size, c.R.Thorough(), c.R.Seed())
 	secrets = append(secrets, verifc14.Named{Name: "4L", V: order4L}, verifc14.Named{Name: "4L+4", V: verifc14.AddSmall(order4L, 4)})
-	shared := secrets
-	if !c.R.Thorough() {
-		shared = append(append([]verifc14.Named{}, secrets[:10]...), secrets[len(secrets)-2:]...)
+	shared := append(append([]verifc14.Named{}, secrets[:10]...), secrets[len(secrets)-2:]...)
+	if c.R.Thorough() {
+		shared = append(shared, verifc14.Thin(secrets[10:len(secrets)-2], 48)...)
 	}
 	c.R.Rule("peer values: every 56-byte string with limbs in {0,2^64-1}, every string one limb away from 00../FF.. over a 13-value limb list, " +
 		"-2..+19 around p, 5, 2^448-20 and the three low-order points of the package table, SHAKE-derived strings; secrets: SEEDS(56), 3 SHAKE strings, 0x55../0xaa.., 4L, 4L+4, single-bit secrets " +
-		"(all 448 in the thorough tier, byte-boundary bits in the quick tier). KeyGen on every secret; Shared on the full product in the thorough tier, on 12 secrets x every peer value in the quick tier; a case = one peer value, digest over all secrets (bytes + ok flag)")
+		"(all 448 in the thorough tier, byte-boundary bits in the quick tier). KeyGen on every secret; Shared on 12 secrets (quick) / about 60 secrets (thorough: every 8th single-bit secret added) x every peer value; a case = one peer value, digest over all secrets (bytes + ok flag)")
 	c.R.NotExhaustive("secrets and peer values are the declared alphabets")
 	verifc14.RunDH(c, &verifc14.DH{
 		Name: "X448", Size: Size,
